@@ -445,7 +445,7 @@ def component_stage(ctx):
     from harness.adapters import sensor as S
 
     n_worlds = ctx.pick(8, 24)
-    n_cases = ctx.pick(500, 1900)
+    n_cases = ctx.pick(430, 1450)
     n_hist = ctx.pick(25, 80)
     drv = core.LeanDriver("drv_sensor")
     sample_left = 3
@@ -1340,6 +1340,40 @@ def wholerun_one(args):
                     "findings": findings, "stats": stats}
         if prior_root:
             out["prior_events"] = sum(len(t["events"]) for t in res.trace if t.get("prog") == "Q_full")
+        out["fresh_diffs"] = None
+        if what_differs and out["programs"]:
+            # the same configuration in a fresh folder that holds only the seed files the second run ended
+            # with: whatever the folder held before, the second run's records must be these
+            fresh = tempfile.mkdtemp(prefix="ldarverif_c05hist_")
+            try:
+                gen = os.path.join(res.root, "inputs", "generator")
+                os.makedirs(os.path.join(fresh, "inputs", "generator"))
+                ok = True
+                for f in SEED_FILES:
+                    if os.path.exists(os.path.join(gen, f)):
+                        shutil.copy(os.path.join(gen, f), os.path.join(fresh, "inputs", "generator", f))
+                    else:
+                        ok = False
+                if ok:
+                    r3 = W.run_config(cfg, debug=True, processes=1, trace=False, workdir=fresh)
+                    fd = []
+                    if r3.rc != 0 and r3.emissions("P_none", 0) is None:
+                        out["fresh_problem"] = r3.log[-800:]
+                    else:
+                        for p in cfg["programs"]:
+                            for sim in range(cfg.get("n_sims", 1)):
+                                a = _canon_rows(res.emissions(p["name"], sim))
+                                b = _canon_rows(r3.emissions(p["name"], sim))
+                                if a != b:
+                                    fd.append({"program": p["name"], "sim": sim, "rows_second_run": len(a),
+                                               "rows_fresh": len(b),
+                                               "only_in_second_run": [dict(x) for x in a if x not in b][:2],
+                                               "only_in_fresh": [dict(x) for x in b if x not in a][:2]})
+                        out["fresh_diffs"] = fd
+                else:
+                    out["fresh_problem"] = "seed files not found in the generator folder of the history"
+            finally:
+                shutil.rmtree(fresh, ignore_errors=True)
         return out
     finally:
         res.cleanup()
@@ -1505,16 +1539,18 @@ def wholerun_oracle(ctx):
     if ctx.quick:
         wides = [["coverage", "followup"], ["crews", "workday", "weather", "months", "years", "sims"], True]
     else:
-        wides = [[t] for t in C05_WIDE_TAGS] + [["coverage", "followup"], True, True]
+        # "sims-batch": 6 / 7 simulations = more than one batch of five with a partial last batch; every
+        # simulation's records are compared (mobile programs only, to keep the run short)
+        wides = [[t] for t in C05_WIDE_TAGS] + [["coverage", "followup"], True, True, ["sims-batch"]]
     for i, wd in enumerate(wides):
-        jobs.append((ctx.rng.randrange(1 << 30), True if (wd is True or "sims" not in wd) else False, None, wd))
+        jobs.append((ctx.rng.randrange(1 << 30), True if (wd is True or ("sims" not in wd and "sims-batch" not in wd)) else False, None, wd))
     # surveys that span days while visibility changes (site survey time above the workday, temporal coverage 1/2,
     # an intermittent source): what a completed survey reports must be the completion day's reading
     for i in range(ctx.pick(1, 3)):
         jobs.append((ctx.rng.randrange(1 << 30), False, {"multiday": True}, None))
     # "history": the configuration is run in a folder in which a variant with ONE defining leaf changed
     # (harness/wholerun.prev_variant) was run before; every oracle is applied to the second run against ITS cfg
-    hk = ["coverage", "mdl", "period-start", "site-count"]
+    hk = ["period-start", "site-count", "coverage", "mdl"]
     for i in range(ctx.pick(1, 4)):
         jobs.append((ctx.rng.randrange(1 << 30), False, {"history": hk[(i + ctx.seed) % 4]}, None))
     kinds = sorted(HISTORY_KINDS)
@@ -1523,7 +1559,7 @@ def wholerun_oracle(ctx):
     hwide = ["followup", "crews", "workday", "weather", "months", "years"]
     hjobs = [(ctx.rng.randrange(1 << 30), "spatial-1-to-0" if i == 0 else kinds[(i + ctx.seed) % len(kinds)],
               hwide if i >= 3 else None) for i in range(n_hist)]
-    with ThreadPoolExecutor(max_workers=min(len(jobs) + n_hist, max(1, (os.cpu_count() or 2) // 2), 8)) as ex:
+    with ThreadPoolExecutor(max_workers=min(len(jobs) + n_hist, max(1, (os.cpu_count() or 2) - 4), 12)) as ex:
         hfut = [ex.submit(wholerun_history_one, j) for j in hjobs]
         outs = list(ex.map(wholerun_one, jobs))
         houts = []
@@ -1563,6 +1599,17 @@ def wholerun_oracle(ctx):
         ctx.count("wholerun:shape:%s" % json.dumps(out.get("shape"), sort_keys=True))
         if out.get("what_differs"):
             ctx.count("history:%s" % out["what_differs"])
+            if out.get("fresh_problem"):
+                ctx.broke("whole-run history (%s): fresh-folder run could not be evaluated" % out["what_differs"],
+                          out["fresh_problem"])
+            elif out.get("fresh_diffs"):
+                ctx.violate("C05:wholerun:second-run:records-differ-from-fresh-folder-run",
+                            "the emission records of a run in a folder used before (one defining leaf differed: %s) "
+                            "differ from those of the same configuration and seeds in a fresh folder"
+                            % out["what_differs"],
+                            dict(inp, what_differs=out["what_differs"], finding=out["fresh_diffs"][:3]))
+            elif out.get("fresh_diffs") is not None:
+                ctx.count("history:records-equal-fresh-folder-run")
             if out.get("prev_rc"):
                 ctx.count("history:first-run-stopped (second run evaluated)")
         if out.get("wide"):
@@ -1740,6 +1787,9 @@ def replay(ctx, data):
             for f in r["findings"][:5]:
                 print("   ", f)
                 ctx.violate(f[0], f[1], dict(inp, program=prog))
+        if out.get("fresh_diffs"):
+            print("records differ from the fresh-folder run:", str(out["fresh_diffs"][:2])[:600])
+            ctx.violate("C05:wholerun:second-run:records-differ-from-fresh-folder-run", out.get("what_differs"), inp)
         for prog in ("P_Z", "P_B", "P_ZF"):
             r = out["programs"].get(prog)
             if r and (r["n_diffs"] or r["tag_events"] or r["nonzero_reports"]):
